@@ -22,6 +22,7 @@ package main
 
 import (
 	"fmt"
+	"os"
 	"reflect"
 	"runtime"
 	"sort"
@@ -63,6 +64,9 @@ var conc18Roots = []conc18Root{
 
 func famConc18(c *Ctx) {
 	if concIsChild() {
+		if os.Getenv(concChildEnv) == "witness" {
+			conc18WitnessFG1(c)
+		}
 		for i := 0; i < c.N; i++ {
 			conc18Experiment(c)
 		}
@@ -74,13 +78,15 @@ func famConc18(c *Ctx) {
 		c.Stat("race_detector_off")
 	}
 	per := 25
+	mode := "witness" // the first child also runs the corpus (witness of finding FG1)
 	for remaining := c.N; remaining > 0; remaining -= per {
 		k := per
 		if remaining < k {
 			k = remaining
 		}
 		seed := c.U64() >> 1
-		res := concRunChild("conc18", "1", seed, k, c.Tier, nil, 10*time.Minute)
+		res := concRunChild("conc18", mode, seed, k, c.Tier, nil, 10*time.Minute)
+		mode = "1"
 		concForward(c, res.lines)
 		c.Stat("child_processes")
 		st := strconv.FormatUint(seed, 10)
@@ -109,6 +115,85 @@ func conc18Tail(s string) string {
 		s = s[len(s)-200:]
 	}
 	return s
+}
+
+// ---------------------------------------------------------------- corpus: witness of finding FG1
+
+// conc18WitnessFG1 replays the minimal witness of finding FG1 (schedule dependent, so it is
+// retried until it shows or a budget is spent).  Root R = Node{bytes: 1 MiB, nested: C}, C =
+// Node{int32: 5, nested: G} where G is encoded as two occurrences of field 99 (merged on decode: raw
+// 10 bytes, re-encoded 7 bytes).  R is decoded lazily and C is forced, so C.nested is the only
+// undecoded lazy field.  One goroutine calls proto.Marshal(R), another one the getter C.GetNested().
+// When the getter publishes G between Marshal's size pass (which counted the raw bytes through
+// lazy.SizeField) and its append pass (which now re-encodes G), the length prefix computed for C
+// no longer matches and Marshal returns errors.MismatchedSizeCalculation, although nobody modified
+// the message.  The big bytes field (number 15, appended before field 99) widens the window.
+func conc18WitnessFG1(c *Ctx) {
+	g1, _ := proto.Marshal(lazy_opaque.Node_builder{Int32: proto.Int32(7)}.Build())
+	g2, _ := proto.Marshal(lazy_opaque.Node_builder{Int64: proto.Int64(9)}.Build())
+	var cb []byte
+	cb = protowire.AppendVarint(protowire.AppendTag(cb, 1, protowire.VarintType), 5)
+	cb = protowire.AppendBytes(protowire.AppendTag(cb, 99, protowire.BytesType), g1)
+	cb = protowire.AppendBytes(protowire.AppendTag(cb, 99, protowire.BytesType), g2)
+	var rb []byte
+	rb = protowire.AppendBytes(protowire.AppendTag(rb, 15, protowire.BytesType), make([]byte, 1<<20))
+	rb = protowire.AppendBytes(protowire.AppendTag(rb, 99, protowire.BytesType), cb)
+	want := &lazy_opaque.Node{}
+	if err := (proto.UnmarshalOptions{NoLazyDecoding: true}).Unmarshal(rb, want); err != nil {
+		c.PropFail("C18", "harness: FG1 witness does not decode", concTok(err.Error()))
+		return
+	}
+	// sequentially the same calls succeed, in either order
+	for order := 0; order < 2; order++ {
+		m := &lazy_opaque.Node{}
+		proto.Unmarshal(rb, m)
+		child := m.GetNested()
+		if order == 0 {
+			child.GetNested()
+		}
+		out, err := proto.Marshal(m)
+		got := &lazy_opaque.Node{}
+		if err != nil || proto.Unmarshal(out, got) != nil || !proto.Equal(got, want) {
+			c.PropFail("C18", "FG1 witness fails sequentially", "order="+strconv.Itoa(order))
+			return
+		}
+	}
+	budget := 400
+	for it := 1; it <= budget; it++ {
+		m := &lazy_opaque.Node{}
+		if err := proto.Unmarshal(rb, m); err != nil {
+			c.PropFail("C18", "harness: FG1 witness does not decode lazily", concTok(err.Error()))
+			return
+		}
+		child := m.GetNested()
+		var out []byte
+		var merr error
+		var wg sync.WaitGroup
+		wg.Add(2)
+		go func() { defer wg.Done(); out, merr = proto.Marshal(m) }()
+		go func() {
+			defer wg.Done()
+			time.Sleep(time.Duration(it%250) * time.Microsecond)
+			child.GetNested().GetInt32()
+		}()
+		wg.Wait()
+		if merr != nil {
+			if strings.Contains(merr.Error(), "size mismatch") {
+				c.Known("FG1", "C18", conc18FG1What)
+				c.Stat("known_FG1_witness_reproduced")
+				c.StatN("known_FG1_witness_iterations", it)
+			} else {
+				c.PropFail("C18", "FG1 witness: Marshal failed with an unexpected error", concTok(merr.Error()))
+			}
+			return
+		}
+		got := &lazy_opaque.Node{}
+		if err := proto.Unmarshal(out, got); err != nil || !proto.Equal(got, want) {
+			c.PropFail("C18", "FG1 witness: Marshal succeeded with a wrong result", "iteration="+strconv.Itoa(it))
+			return
+		}
+	}
+	c.Stat("known_FG1_witness_not_reproduced_this_run")
 }
 
 // ---------------------------------------------------------------- model-only schedule exploration
@@ -521,6 +606,11 @@ const (
 var conc18OpNames = []string{"walk", "has", "range", "scalars", "size", "sizedet", "marshaldet", "marshal",
 	"equal", "clone", "merge", "json", "text", "checkinit"}
 
+// digest returned when non-deterministic Marshal fails with errors.MismatchedSizeCalculation
+const conc18SizeMismatch = 0xF61F61F61
+
+const conc18FG1What = "proto.Marshal racing with a getter that decodes a lazy field whose raw encoding is not canonical fails with 'size mismatch' (size pass counted the raw bytes, append pass re-encoded the decoded field)"
+
 type conc18Op struct {
 	kind  int
 	path  int
@@ -591,6 +681,9 @@ func conc18Eval(op conc18Op, root, eagerRoot proto.Message, paths []conc18Path, 
 	case conc18OpMarshal:
 		b, err := proto.MarshalOptions{AllowPartial: true}.Marshal(sub)
 		if err != nil {
+			if strings.Contains(err.Error(), "size mismatch") {
+				return conc18SizeMismatch // errors.MismatchedSizeCalculation: see finding FG1
+			}
 			return concDigest([]byte("error"))
 		}
 		// map order and raw-versus-reencoded lazy fields make the bytes history dependent:
@@ -795,8 +888,16 @@ func conc18Experiment(c *Ctx) {
 		}
 		for k := range got[t] {
 			if got[t][k] != want[t][k] {
-				failed = true
 				op := progs[t][k]
+				if got[t][k] == conc18SizeMismatch && op.kind == conc18OpMarshal && !canonical {
+					// finding FG1, recognised narrowly: non-deterministic Marshal, the specific
+					// size-mismatch error, and an input in which a lazy field's raw encoding
+					// (two occurrences) differs in length from its re-encoding
+					c.Known("FG1", "C18", conc18FG1What)
+					c.Stat("known_FG1_in_random_experiment")
+					continue
+				}
+				failed = true
 				c.PropFail("C18", "result of a concurrent read differs from the sequential result",
 					append(id, "thread="+strconv.Itoa(t), "op="+conc18OpNames[op.kind], "path="+strconv.Itoa(op.path), HexB(b))...)
 			}
